@@ -597,6 +597,14 @@ def _on_terms(terms_by_decl):
     for (c, i) in terms_by_decl.get('cget', []):
         out.append(z3.Implies(z3.And(0 <= i, i < clen(c)), maxabs(cget(c, i)) <= cmaxabs(c)))
         out.append(z3.Implies(z3.And(0 <= i, i < clen(c), z3.Not(chaszero(c))), z3.Not(haszero(cget(c, i)))))
+    # CnfSem.lean combs_apseq_distinct: the k-subsets of a progression are listed without repetition
+    _cg = [(c, i) for (c, i) in terms_by_decl.get('cget', []) if z3.is_app(c) and c.decl().name() == 'combs'
+           and z3.is_app(c.arg(0)) and c.arg(0).decl().name() == 'apseq']
+    for a_ in range(len(_cg)):
+        for b_ in range(len(_cg)):
+            (c1, i1), (c2, i2) = _cg[a_], _cg[b_]
+            if a_ != b_ and c1.eq(c2):
+                out.append(z3.Implies(z3.And(0 <= i1, i1 < i2, i2 < clen(c1)), cget(c1, i1) != cget(c1, i2)))
     for (x,) in terms_by_decl.get('pow2', []):
         # Nat.one_le_two_pow, pow_succ (trivial arithmetic; Lean: Bits.lean pow2_facts)
         out.append(z3.Implies(x >= 0, pow2(x) >= 1))
